@@ -62,11 +62,19 @@ func runR3(p *Prog, r *Report, o r3opts) *panicChecker {
 		roots = append(roots, f)
 	}
 	fns := p.cg.Reachable(roots...)
+	reachSet := map[*ssa.Function]bool{}
+	for _, f := range fns {
+		reachSet[f] = true
+	}
 	byClass := map[string]int{}
 	n := 0
 	for _, f := range fns {
 		r.fn(funcName(f))
 		if why, ok := o.delegate[funcName(f)]; ok {
+			r.note("sites of " + funcName(f) + " are decided elsewhere: " + why)
+			continue
+		}
+		if why, ok := explicitViaCallers(p, f, o.delegate, 0, reachSet); ok {
 			r.note("sites of " + funcName(f) + " are decided elsewhere: " + why)
 			continue
 		}
@@ -79,6 +87,8 @@ func runR3(p *Prog, r *Report, o r3opts) *panicChecker {
 			pos := p.pos(s.Ins.Pos())
 			if s.Class == "explicit" {
 				if why, ok := o.explicit[funcName(f)]; ok {
+					r.ok(rule, strings.TrimPrefix(s.Key, "explicit:"), pos, s.Detail+": "+why)
+				} else if why, ok := explicitViaCallers(p, f, o.explicit, 0, reachSet); ok {
 					r.ok(rule, strings.TrimPrefix(s.Key, "explicit:"), pos, s.Detail+": "+why)
 				} else {
 					r.bad(rule, strings.TrimPrefix(s.Key, "explicit:"), pos, s.Detail+" is reachable from "+strings.Join(o.entries, ", "))
@@ -119,3 +129,42 @@ func runR3(p *Prog, r *Report, o r3opts) *panicChecker {
 }
 
 const r3RuleText = "R3 panic sites: every instruction reachable from the entry set that can panic (explicit panic, x.(T) without comma-ok, index, slice expression, write to a possibly nil map, make with computed size, integer division/shift, dereference of a pointer taken from a slice element / call result / phi with nil, method call on Collection.At's result) is enumerated from go/ssa and must be discharged: bounds by a difference-bound prover over dominating branch facts, definitional length facts, induction and checked loop invariants (bounds.go); nil-ness by a forward must-analysis with callee 'ensures' summaries; assertions by boxing provenance, dominating comma-ok tests or a named typing contract; explicit panics only by a per-property table with the reason. Anything undischarged is a violation."
+
+// explicitViaCallers: f is a small unexported helper called directly and only
+// by functions whose explicit panics are justified (a phase extracted from
+// such a function): the justification carries over.
+func explicitViaCallers(p *Prog, f *ssa.Function, explicit map[string]string, depth int, reach ...map[*ssa.Function]bool) (string, bool) {
+	if depth > 2 || !smallHelper(f) || explicit == nil {
+		return "", false
+	}
+	calls := p.cg.callers[f]
+	if len(calls) == 0 {
+		return "", false
+	}
+	for _, vf := range p.cg.valueFuncs {
+		if vf == f {
+			return "", false
+		}
+	}
+	why := ""
+	for _, c := range calls {
+		if c.Common().IsInvoke() || c.Common().StaticCallee() != f || c.Parent() == nil {
+			return "", false
+		}
+		g := c.Parent()
+		if len(reach) > 0 && reach[0] != nil && !reach[0][g] {
+			continue // a caller that the entry points under analysis cannot reach
+		}
+		w, ok := explicit[funcName(g)]
+		if !ok {
+			w, ok = explicitViaCallers(p, g, explicit, depth+1, reach...)
+		}
+		if !ok {
+			return "", false
+		}
+		if why == "" {
+			why = "(helper of " + funcName(g) + ") " + w
+		}
+	}
+	return why, why != ""
+}
